@@ -15,25 +15,65 @@ argument tuples use disjoint keys and do not interact) plus one auxiliary key:
   key 1 : `<key>:lock` (early) / `<key>:counter` (hit)
 The store is the ideal TTL map of C01 (`Spec/TtlMap.lean`).
 
-The storing condition is the facade's default (`condition=None` -> `_store_all`): every
-successful result is stored, an exception never is.
+The store step that follows a successful execution (`if condition(result, …): _ttl = ttl_to_seconds(ttl, …,
+result=result); await backend.set(key, …, expire=_ttl)`) is scripted as well: with the facade's default
+condition (`condition=None` -> `_store_all`), a plain ttl and a healthy backend every successful result is
+stored (`ok`); a user `condition` may turn a result down (`rejected`: returned, not stored); and the store step
+may itself raise after the function returned — the `condition` callable or a callable `ttl` raises on this
+result (`Stage.pre`: before the backend is touched) or `backend.set` raises (`Stage.set`: a middleware / backend
+/ serializer refusing the value) — with an exception that may or may not be one of the decorator's listed
+`exceptions` (`storeFails stage listed`).  An exception of the wrapped function is never stored.
 -/
 namespace CashewsVerif.Decor
 
-/-- scripted outcome of one execution of the wrapped function -/
+/-- where the store step of a successful execution raises -/
+inductive Stage where
+  | pre   -- `condition(result, …)` or a callable `ttl(…, result=result)` raises: the backend is not touched
+  | set   -- `backend.set(key, result, expire=…)` raises
+  deriving DecidableEq, Repr
+
+/-- scripted outcome of one execution of the wrapped function (and of the store step after it) -/
 inductive Outcome where
-  | ok         -- returns a fresh token
+  | ok         -- returns a fresh token; the store step goes through
   | listed     -- raises an exception that is in the decorator's `exceptions`
   | unlisted   -- raises another exception
+  | rejected   -- returns a fresh token which the storing `condition` turns down (returns False)
+  | storeFails (st : Stage) (lis : Bool)
+               -- returns a fresh token, then the store step raises (an exception that is / is not in `exceptions`)
   deriving DecidableEq, Repr
+
+/-- the function itself returned (whatever happens to its result afterwards) -/
+def Outcome.returns : Outcome → Bool
+  | .ok | .rejected | .storeFails _ _ => true
+  | .listed | .unlisted => false
+
+/-- something raises while this outcome is played: the function, or the store step after it -/
+def Outcome.raises : Outcome → Bool
+  | .ok | .rejected => false
+  | _ => true
+
+/-- the execution gets as far as `backend.set` (which `hit` runs together with the deletion of its counter) -/
+def Outcome.reachesSet : Outcome → Bool
+  | .ok | .storeFails .set _ => true
+  | _ => false
 
 /-- what the caller got -/
 inductive Res where
   | fresh (stamp id : Nat)     -- the result of the execution made inside this very call
   | stored (stamp id : Nat)    -- a result read from the store
   | raised (o : Outcome)       -- the exception of the execution made inside this call
+  | storeErr (lis : Bool)      -- the exception raised by the store step after the successful execution made inside this call
   | broken                     -- the decorator itself failed (malformed store content; unreachable)
   deriving DecidableEq, Repr
+
+/-- what the caller of a foreground execution with this outcome is handed when the execution is the call's own
+computation: its fresh result, the function's exception, or the exception of the store step -/
+def Outcome.result (o : Outcome) (now id : Nat) : Res :=
+  match o with
+  | .ok | .rejected => .fresh now id
+  | .storeFails _ l => .storeErr l
+  | .listed => .raised .listed
+  | .unlisted => .raised .unlisted
 
 structure CallOut where
   res : Res
@@ -52,7 +92,8 @@ inductive DOp where
 inductive DoneRes where
   | noop      -- no such refresh in flight
   | stored    -- it succeeded and its result was stored
-  | failed    -- it raised (nobody sees the exception)
+  | skipped   -- it succeeded and the storing condition turned its result down
+  | failed    -- it (or its store step) raised (nobody sees the exception)
   deriving DecidableEq, Repr
 
 inductive Ans where
